@@ -151,4 +151,13 @@ var checks = map[string]check{
 		Rule:   "multi-file IDL models with services and many struct-likes x trimmer arguments (none; -m exact, anchored regexps, unqualified names; preserve on/off; @preserve comments; preserved-struct list) through trim.TrimAST in-process and the trimmer binary (-r -o); oracle = reachability closure computed from the model (soundness: everything reachable kept; exactness: nothing else; includes), dumped result passes the front end, idempotence, kept struct-likes keep their fields, compile sample; non-trivial = >=1 struct-like removed and >=1 struct-like outside the main file kept only through a typedef or a container element, distinct by files + arguments + entry point",
 		Assume: []string{"-m patterns are exact names or anchored regexps whose meaning is unambiguous; the trimmer's substring heuristics for unanchored patterns are not part of the property", "services of included files that are not a base of a kept service: nothing asserted without -m", "include survival is asserted only where the property is explicit (must stay if referenced or holding constants/enums/typedefs; must go if nothing kept names it and its subtree holds none of those)"},
 	},
+	"C04": {
+		ID: "C04", Pkg: "c04", NeedBin: true, MaxPar: 12,
+		Jobs: []job{
+			{Run: "^TestInvalidIDL$", Quick: 60, QShards: 8, Thor: 4000, TShards: 14},
+			{Run: "^TestInvalidCommandLine$", Quick: 40, QShards: 3, Thor: 600, TShards: 6},
+		},
+		Rule:   "a valid generated program (1-4 files) x exactly one rule-breaking edit from the property's catalogue at a drawn position (main or transitively included file; struct/union/exception/args/throws/typedef/const/enum/service; local, qualified or unknown-prefix reference; include cycle of length 1-4) x go/fastgo x -r on/off, and invalid command lines; oracle on the binary: exit status != 0, a diagnostic, empty output directory, no Go panic/fatal trace, no hang; the unedited program must exit 0 with its expected files; non-trivial = the edit sits in an included file or a nested position (args, throws, container or literal element), or the shortest include cycle is >=2, distinct by files + arguments",
+		Assume: []string{"duplicate ids or names inside args/throws lists are not enforced by thriftgo and are not in the catalogue as generated", "backend-enforced edits (string for integer, unknown field / non-string key in a struct literal) in an included file are run with -r (without it an unused include is never evaluated)", "a valid program that is rejected is counted and skipped (C01's domain)"},
+	},
 }
